@@ -46,7 +46,10 @@ DEVIATION_ERR = {
     "gossip-agg-outer-sig-truncated": (lambda e: e["verdict"] != "REJECT" or e["err"] == "invalid aggregate signature"),
     "gossip-block-mark-before-proposer-check": (lambda e: "expected proposer" in e["err"]),
     "gossip-sync-period-boundary": (lambda e: e["verdict"] != "REJECT" or "is not in sync committee subnet" in e["err"]
-                                    or "could not find aggregator" in e["err"]),
+                                    or "could not find aggregator" in e["err"]
+                                    # aggregator sits in both committees: the participants' signatures are then checked
+                                    # against the outgoing committee's keys
+                                    or "could not verify BLS signature for sync committee contribution" in e["err"]),
     "gossip-contrib-single-participant": (lambda e: "at least 1 participant" in e["err"]),
     "gossip-exit-deneb-domain": (lambda e: e["verdict"] != "REJECT" or "signature could not be verified" in e["err"]),
 }
@@ -198,6 +201,37 @@ def coverage(events):
     return cov, verdicts, single
 
 
+# boundary-value cases of the ordered comparisons in the tables (tag logged by the harness in "bnd"); every one must
+# occur in every run
+_EDGE = ["slot=current_slot:disparity-edge-inside", "slot=current_slot:disparity-edge-outside"]
+_ATT = _EDGE + ["window-end:disparity-edge-inside", "window-end:disparity-edge-outside", "committee_index=count",
+                "committee_index=count-1", "bits=len+1", "target_epoch=epoch+1", "target_epoch=epoch-1", "participants=0",
+                "epoch=fork_epoch-1:head-past-fork"]
+_SYNC = ["slot=current_slot:early-edge-inside", "slot=current_slot:early-edge-outside", "slot=current_slot:late-edge-inside",
+         "slot=current_slot:late-edge-outside"]
+REQUIRED_BOUNDARIES = {
+    "block": _EDGE + ["slot=parent_slot", "slot=parent_slot+1", "slot=finalized_slot", "slot=finalized_slot+1",
+                      "slot=finalized_slot:side-branch", "blobs=max", "blobs=max+1", "proposer_index=count"],
+    "att": _ATT + ["bits=len-1", "participants=2"],
+    "agg": _ATT,
+    "exit": ["exit_epoch=current+1", "age=SHARD_COMMITTEE_PERIOD", "age=SHARD_COMMITTEE_PERIOD-1", "index=count", "index=count-1",
+             "epoch=fork_epoch-1:head-past-fork"],
+    "pslash": ["index=count", "index=count-1", "slot2=slot1+1", "epoch=fork_epoch-1:head-past-fork"],
+    "aslash": ["index=count", "indices=0", "epoch=fork_epoch-1:head-past-fork"],
+    "syncmsg": _SYNC + ["index=count"],
+    "contrib": _SYNC + ["subcommittee_index=count", "subcommittee_index=count-1", "participants=0", "index=count"],
+}
+
+
+def boundary_coverage(events):
+    out = {}
+    for e in events:
+        if e["ev"] == "Msg" and e.get("bnd"):
+            d = out.setdefault(e["topic"], {}).setdefault(e["bnd"], collections.Counter())
+            d[e["verdict"]] += 1
+    return {t: {b: dict(c) for b, c in v.items()} for t, v in out.items()}
+
+
 # every condition must also be exercised as the ONLY failing one, except where that is impossible:
 NOT_SINGLE = {
     ("block", "after_finalized"): "a block at or before the finalized slot cannot descend from the finalized checkpoint",
@@ -256,11 +290,16 @@ def run_check(pid, tier, seed, replay=None):
     hseeds = [seed] if (tier == "quick" or replay) else [seed, seed + 1000, seed + 2000]
     events = []
     res = None
+    not_built = []
     for k, hs in enumerate(hseeds):
         tr = os.path.join(d, "trace%d.ndjson" % k)
         log = run_harness(gbin, tier, hs, tr, extra)
         lib.log(log.strip())
         evs = lib.read_ndjson(tr)
+        # scenarios / catalogues the harness could not build from the tree under test (zrnt refused an honest block,
+        # a builder panicked, ...): the rest is still judged, but "held" is never reported with something missing
+        meta = json.load(open(tr + ".meta.json"))
+        not_built += ["seed %d: %s" % (hs, f) for f in (meta.get("failed") or [])]
         for e in evs:
             e["hseed"] = hs
         if not any(e["ev"] == "Msg" for e in evs):
@@ -313,8 +352,15 @@ def run_check(pid, tier, seed, replay=None):
         rc = 1
 
     cov, verdicts, single = coverage(events)
+    bnd = boundary_coverage(events)
+    if rc == 0 and not_built:
+        raise lib.InfraError("no deviation observed on the views that could be built, but these could not be built from the "
+                             "tree under test (no verdict): " + "; ".join(x[:300] for x in not_built))
     if not replay and rc == 0:
         check_vacuity(cov, verdicts, single)
+        missing = ["%s: %s" % (t, b) for t in REQUIRED_BOUNDARIES for b in REQUIRED_BOUNDARIES[t] if not bnd.get(t, {}).get(b)]
+        if missing:
+            raise lib.InfraError("vacuous run, boundary cases never exercised: " + "; ".join(missing))
 
     nmsg = sum(1 for e in events if e["ev"] == "Msg")
     nhist = sum(1 for e in events if e["ev"] == "Reset")
@@ -346,6 +392,8 @@ def run_check(pid, tier, seed, replay=None):
         "condition_matrix": {t: {c: {"false": v[0], "true": v[1]} for c, v in cov[t].items()} for t in TOPICS},
         "single_condition_failures": {t: dict(single[t]) for t in TOPICS},
         "verdicts": {t: dict(verdicts[t]) for t in TOPICS},
+        "boundary_cases": bnd,
+        "not_built": not_built,
         "reject_class_failures_answered_ignore": dict(SOFT),
         "model_checking": mc_info,
         "exhaustive": False,
@@ -367,7 +415,7 @@ def run_check(pid, tier, seed, replay=None):
 def scen_of(view):
     if view.startswith("p0fork"):
         return "p0fork"
-    for k, v in {"p0early": "p0", "p0lag": "p0", "altmid": "alt", "latebel": "late"}.items():
+    for k, v in {"p0early": "p0", "p0lag": "p0", "p0ep2": "p0", "altmid": "alt", "latebel": "late"}.items():
         if view == k:
             return v
     return view
